@@ -63,5 +63,40 @@ v('c01-s-op-extra-key','R-C01.1',M,"""            'type': 'delete_column',
             'field': field,
             'column': field.column,""",expect='silent')
 v('c01-s-dispatch-via-dict-order','R-C01.1',C,"        if op_type == 'add_column':\n            field = op['field']","        if 'add_column' == op_type:\n            field = op['field']",expect='silent')
+v('c01-add-db-index-not-in-new-fields','R-C01.8','db/sqlite3.py',"""                added_field_db_indexes.append(field)
+
+                # If the table is rebuilt, the field indexes are recreated
+                # from the fields used for the new table. Make sure that's
+                # the field with the new db_index state, which may have
+                # been built from a different model instance than ours
+                # when operations are merged.
+                replaced_fields.setdefault(field.column, field)
+""","""                added_field_db_indexes.append(field)
+""",note='the defect fixed in 42eb15c')
+v('c01-drop-db-index-not-in-new-fields','R-C01.8','db/sqlite3.py',"""                dropped_field_db_indexes.append(field)
+                replaced_fields.setdefault(field.column, field)
+""","""                dropped_field_db_indexes.append(field)
+""")
+v('c01-s-index-state-subscript','R-C01.8','db/sqlite3.py',"""                dropped_field_db_indexes.append(field)
+                replaced_fields.setdefault(field.column, field)
+""","""                dropped_field_db_indexes.append(field)
+                if field.column not in replaced_fields:
+                    replaced_fields[field.column] = field
+""",expect='silent')
+v('c01-deleted-filter-over-added','R-C01.9','db/sqlite3.py',"""            for _field in old_fields
+            if _field.column not in deleted_columns
+        ] + [
+            replaced_fields.get(_field.column, _field)
+            for _field in added_fields
+        ]
+""","""            for _field in old_fields + added_fields
+            if _field.column not in deleted_columns
+        ]
+""",note='the defect fixed in 50fdda8')
+v('c01-s-deleted-filter-loop','R-C01.9','db/sqlite3.py',"""            for _field in old_fields
+            if _field.column not in deleted_columns
+        ] + [""","""            for _field in list(old_fields)
+            if not (_field.column in deleted_columns)
+        ] + [""",expect='silent')
 json.dump(V, open(os.path.dirname(os.path.abspath(__file__))+'/variants_c01.json','w'), indent=1)
 print(len(V))
